@@ -373,7 +373,8 @@ pub struct Utxo {
     #[serde(default, skip_serializing_if = "Option::is_none")]
     pub script_ref: Option<ScriptId>,
     /// a pure-ADA value that carries an empty asset map (`[coin, {}]`, what value arithmetic or a
-    /// JSON wallet export leaves behind) instead of no map at all
+    /// JSON wallet export leaves behind) instead of no map at all; on an asset-carrying value: an
+    /// additional policy entry that holds no asset
     #[serde(default, skip_serializing_if = "is_false")]
     pub empty_ma: bool,
 }
@@ -471,8 +472,15 @@ impl World {
     }
     pub fn output_of(&self, u: &Utxo) -> csl::TransactionOutput {
         let mut val = self.value(u.coin, &u.assets);
-        if u.empty_ma && u.assets.is_empty() {
-            val.set_multiasset(&csl::MultiAsset::new());
+        if u.empty_ma {
+            if u.assets.is_empty() {
+                val.set_multiasset(&csl::MultiAsset::new());
+            } else if let Some(mut ma) = val.multiasset() {
+                // a policy entry without assets next to real ones (legal before Conway; what a
+                // subtraction that does not prune, or a decoder, leaves behind)
+                ma.insert(&self.policy(1999), &csl::Assets::new());
+                val.set_multiasset(&ma);
+            }
         }
         let mut o = csl::TransactionOutput::new(&self.address(&u.addr), &val);
         match &u.datum {
